@@ -78,7 +78,6 @@ extern "C" void harness(void) {
       vfw::Node& n = vfw::nodes[1 + k];
       if (!ex && n.exists) vfw::remove_node(1 + k);
       else if (ex && !n.exists) vfw::recreate_node(1 + k);
-      else if (ex && n.exists && t > 0 && vf_nd(K_RECREATE + t * 8 + k, 0, 1)) { vfw::remove_node(1 + k); vfw::recreate_node(1 + k); }
       n.xattrs = tag ? 16 : 0;
       vf_cfg_set(CFG_EXISTS + t, k, ex); vf_cfg_set(CFG_TAG + t, k, tag);
     }
